@@ -4,6 +4,7 @@ from props.m1common import g, sp, sx, rng_for, is_err, compare_result, shrink_tr
 
 PID = "C03"
 RUNNER = "impl_m1.py"
+VM_CROSSCHECK = True
 N = {"quick": 2000, "thorough": 80000}
 LEVEL_RULE = ("random event trees (depth <= 4, zero-length leaves, empty containers, simultaneities with unequal voices); "
               "windows aligned to child boundaries +-1 tick, leaf interiors, past the end, zero-length children on the edges, "
@@ -132,3 +133,17 @@ def neighbours(case):
         for de in (-1, 0, 1):
             out.append(["op", case[1], ["cut_out", s + ds, e + de]])
     return out + shrink(case)
+
+
+EXHAUSTIVE_SPACE = ("every tree with <= 4 nodes over leaf lengths {0, 1, 2} (sequences, simultaneities, empty containers), "
+                    "every pair (start, end) in -1 .. duration+2")
+
+
+def exhaustive_cases():
+    out = []
+    for t in g.enumerate_trees(4, (0, 1, 2)):
+        d = g.dur(t)
+        for a in range(-1, d + 3):
+            for b in range(-1, d + 3):
+                out.append(["op", t, ["cut_out", a, b]])
+    return out
